@@ -23,6 +23,7 @@ EXHAUSTIVE = True
 PREFIXES = ["use", "not", "active", "not_active", "only"]
 CATS = ["os", "browser.ver", "py.feature.x_y"]        # categories without, with one and with several dots
 VALUES = ["a", "b", "10", "yes"]
+EMPTY_VALUED = ["use.with_os=", "not.with_os=", "only.with_browser.ver=", "not_active.with_py.feature.x_y="]    # active tags with an empty value
 ORDINARY = ["wip", "use.without_os=a", "use.with_=x", "not.with_os", "use.with_os.=a", "xuse.with_os=a", "use.with_os=a=b"]
 OPS = {"eq": operator.eq, "ge": operator.ge, "le": operator.le, "lt": operator.lt}
 
@@ -199,8 +200,8 @@ def enc(case, obs):
 def suites(tier, seed):
     rnd = random.Random(seed * 31 + 19)
     thorough = tier == "thorough"
-    universe = ["%s.with_%s=%s" % (p, c, v) for p in PREFIXES for c in CATS for v in VALUES] + ORDINARY
-    specs = [None, ("none",), ("str", "a"), ("str", "b", "lazy"), ("strobj", "a"), ("num", 10, "eq"), ("num", 10, "ge"),
+    universe = ["%s.with_%s=%s" % (p, c, v) for p in PREFIXES for c in CATS for v in VALUES] + ORDINARY + EMPTY_VALUED
+    specs = [None, ("none",), ("str", "a"), ("str", ""), ("str", "b", "lazy"), ("strobj", "a"), ("num", 10, "eq"), ("num", 10, "ge"),
              ("num", 9, "le"), ("num", 11, "lt", "lazy"), ("bool", True), ("bool", False, "lazy"), ("str", "zz"),
              # current values that are no whole numbers (compared as they are; the Coq model has integers only: oracle alone)
              ("num", 10.5, "eq"), ("num", 9.5, "le"), ("num", 10.5, "ge", "lazy"), ("num", 10.5, "lt")]
